@@ -497,10 +497,10 @@ func c14(r *core.Run) {
 						candField = &a
 					}
 				}
-				fIdx := -1
+				fIdx, fPath := -1, ""
 				for _, a := range p.ProvAt(fside, "", ifi).DataAtoms() {
 					if a.Kind == "param" && a.Fn == fn {
-						fIdx = a.Idx
+						fIdx, fPath = a.Idx, a.Path // the parameter may be the field itself or the prover's record (then .Ip of it)
 					}
 				}
 				if candField != nil && fIdx >= 0 {
@@ -528,12 +528,40 @@ func c14(r *core.Run) {
 							if fIdx >= len(actuals) {
 								return
 							}
-							atoms := p.ProvAt(actuals[fIdx], "", cs).DataAtoms()
-							okArg := len(atoms) > 0
-							for _, a := range atoms {
-								if !(a.Kind == "store" && a.Name == candField.Name && a.Path == candField.Path) {
-									okArg = false
+							// what the argument is, seen from the request handlers (a helper between the handler and the
+							// filter hands its own parameter on)
+							pr := p.ProvAt(actuals[fIdx], fPath, cs)
+							okArg, onFormPath := false, false
+							for _, key := range []string{"storage.MsgRequestAttestationForm", "storage.MsgRequestReportForm"} {
+								hh := core.HandlerByKey(hs, key)
+								if hh == nil {
+									continue
 								}
+								reaches := hh.Fn == caller
+								for _, f := range p.Summary(hh.Fn).Funcs {
+									if f == caller {
+										reaches = true
+									}
+								}
+								if !reaches {
+									continue
+								}
+								onFormPath = true
+								atoms := p.ResolveToEntry(pr, hh.Fn).DataAtoms()
+								okH := len(atoms) > 0
+								for _, a := range atoms {
+									if !(a.Kind == "store" && a.Name == candField.Name && a.Path == candField.Path) {
+										okH = false
+									}
+								}
+								if !okH {
+									okArg = false
+									break
+								}
+								okArg = true
+							}
+							if !onFormPath {
+								return // a call no form request reaches (a query, a wrapper kept for other callers)
 							}
 							r.Check(okArg, "C14/R6", "form-candidates:filter-argument:"+caller.Name(), p.InstrPos(cs), "the filter is handed "+candField.String()+" of the prover, the field the candidates' keys are cut from", "the candidate filter is handed something other than the requesting prover's "+candField.String()+" (an account address, say): nothing is extracted from it, no candidate is excluded and a form can name the prover it concerns")
 						})
